@@ -9,8 +9,11 @@ dictionaries -- are not caches.)  For every cache method:
   key-complete        every parameter the stored value depends on is a parameter the key depends on;
   entry-not-mutated   no in-place write in the method reaches an entry of the cache (a list popped / sorted, an array
                       updated after it was stored, or an entry edited on the hit path);
-  entry-not-returned  what the method returns shares no storage with an entry of the cache (directly, or inside a freshly
-                      built list / dict / tuple that is returned), unless the entry is an immutable scalar.
+  entry-not-returned  what a *public* method returns shares no storage with an entry of the cache (directly, or inside a
+                      freshly built list / dict / tuple that is returned), unless the entry is an immutable scalar; a private
+                      helper hands its result to the class's own methods, which are judged where they return.
+A parameter missing from the key is accepted when every hit is validated against it (the entry stores its inputs and the
+conditions holding at the hit-return compare them with the current ones).
 
 The cache rules say nothing about code without caches: on a tree that has none, the rules have no instance (the synthetic
 positive examples in ``selfcheck`` keep them honest).
@@ -41,23 +44,46 @@ def find_cache_methods(ci):
             continue
         s = fn.args.args[0].arg
         stores, looks = {}, {}
+        # locals that are the container itself: c = self.C / getattr(self, 'C', None) / self.__dict__.setdefault('C', {})
+        local = {}
+        for n in walk_local(fn):
+            if isinstance(n, ast.Assign) and isinstance(n.targets[-1], ast.Name):
+                v = n.value
+                if _is_self_attr(v, s):
+                    local[n.targets[-1].id] = v.attr
+                elif isinstance(v, ast.Call) and dotted(v.func) == 'getattr' and len(v.args) >= 2 and isinstance(v.args[0], ast.Name) \
+                        and v.args[0].id == s and isinstance(v.args[1], ast.Constant):
+                    local[n.targets[-1].id] = str(v.args[1].value)
+                elif isinstance(v, ast.Call) and isinstance(v.func, ast.Attribute) and v.func.attr in ('setdefault', 'get') and v.args \
+                        and isinstance(v.args[0], ast.Constant) and unparse(v.func.value) in ('%s.__dict__' % s, 'vars(%s)' % s):
+                    local[n.targets[-1].id] = str(v.args[0].value)
+            # c = self.C = {}   (chained)
+            if isinstance(n, ast.Assign) and len(n.targets) == 2 and isinstance(n.targets[0], ast.Name) and _is_self_attr(n.targets[1], s):
+                local[n.targets[0].id] = n.targets[1].attr
+
+        def attr_of(e):
+            if _is_self_attr(e, s):
+                return e.attr
+            if isinstance(e, ast.Name) and e.id in local:
+                return local[e.id]
+            return None
         for n in walk_local(fn):
             if isinstance(n, ast.Assign):
                 for t in n.targets:
-                    if isinstance(t, ast.Subscript) and _is_self_attr(t.value, s) and not isinstance(t.slice, ast.Slice):
-                        stores.setdefault(t.value.attr, []).append(n)
+                    if isinstance(t, ast.Subscript) and attr_of(t.value) and not isinstance(t.slice, ast.Slice):
+                        stores.setdefault(attr_of(t.value), []).append(n)
             if isinstance(n, ast.Compare) and len(n.ops) == 1 and isinstance(n.ops[0], (ast.In, ast.NotIn)) \
-                    and _is_self_attr(n.comparators[0], s):
-                looks.setdefault(n.comparators[0].attr, []).append(n)
+                    and attr_of(n.comparators[0]):
+                looks.setdefault(attr_of(n.comparators[0]), []).append(n)
             if isinstance(n, ast.Call) and isinstance(n.func, ast.Attribute) and n.func.attr in ('get', 'setdefault') \
-                    and _is_self_attr(n.func.value, s):
-                looks.setdefault(n.func.value.attr, []).append(n)
+                    and attr_of(n.func.value) and not unparse(n.func.value).endswith('__dict__'):
+                looks.setdefault(attr_of(n.func.value), []).append(n)
             if isinstance(n, ast.Try):
                 # try: v = self.C[k]  except KeyError: ...   -- the dictionary idiom without a membership test
                 if any(h.type is not None and 'KeyError' in unparse(h.type) for h in n.handlers):
                     for x in ast.walk(ast.Module(body=n.body, type_ignores=[])):
-                        if isinstance(x, ast.Subscript) and isinstance(x.ctx, ast.Load) and _is_self_attr(x.value, s):
-                            looks.setdefault(x.value.attr, []).append(x)
+                        if isinstance(x, ast.Subscript) and isinstance(x.ctx, ast.Load) and attr_of(x.value):
+                            looks.setdefault(attr_of(x.value), []).append(x)
         for a in stores:
             if a not in looks:
                 continue
@@ -134,13 +160,24 @@ def check_method(model, cm):
     defs, names_of = _deps(fn, s)
     q = '%s.%s' % (ci.name, cm.name)
     # ---- key completeness
+    # parameters that every hit is validated against: names in the conditions holding where a looked-up entry is returned
+    # (an entry that stores its own inputs and is only reused after comparing them with the current ones is keyed by them)
+    validated = set()
+    try:
+        from ..props._common import conditions_at
+        for r in walk_local(fn):
+            if isinstance(r, ast.Return) and r.value is not None and r.lineno < max(st_.lineno for st_ in cm.stores):
+                for c in conditions_at(fn, r):
+                    validated |= _closure(defs, names_of(ast.parse(c, mode='eval').body)) & params
+    except Exception:
+        validated = set()
     for st in cm.stores:
         for t in st.targets:
             if not isinstance(t, ast.Subscript):
                 continue
             kdeps = _closure(defs, names_of(t.slice)) & params
             vdeps = _closure(defs, names_of(st.value), stop={'self.' + a}) & params
-            miss = sorted(vdeps - kdeps)
+            miss = sorted(vdeps - kdeps - validated)
             yield Finding('cache-key-complete', st, '%s: self.%s[%s] = %s' % (q, a, unparse(t.slice)[:40], unparse(st.value)[:40]), not miss,
                           '' if not miss else 'the stored value depends on %s but the key does not: a later call that differs only in %s '
                           'finds the entry computed for the earlier one' % (', '.join(miss), ', '.join(miss)))
@@ -181,7 +218,8 @@ def check_method(model, cm):
         if not (isinstance(v, ast.Constant) or (isinstance(v, ast.Call) and (dotted(v.func) or '') in ('float', 'int', 'str', 'bool', 'len', 'hash'))):
             scalar_only = False
     nr = 0
-    for ret, toks, elts in res.returns:
+    private = cm.name.startswith('_') and not cm.name.startswith('__')
+    for ret, toks, elts in ([] if private else res.returns):
         for e, t in zip(elts, toks):
             d = deep(t)
             if (etok in d or atok in d) and not scalar_only:
